@@ -213,11 +213,24 @@ class Gen:
         if k == "nt":
             if depth > self.hard:
                 return ""
-            return self.gen(self.prods.get(g[1]) or self.prods.get(g[1].rstrip("_")) or ("tag", ""), depth + 1)
+            s = self.gen(self.prods.get(g[1]) or self.prods.get(g[1].rstrip("_")) or ("tag", ""), depth + 1)
+            # a name that merely BEGINS with (or equals) one of the grammar's own keywords
+            if s and self.words and len(s) <= 12 and all(c.isalnum() or c in "-._" for c in s) and r.random() < 0.12:
+                w = r.choice(self.words)
+                s = r.choice([w + s, w + s, w, w + s[:1], s + w])
+            return s
         return ""
 
     def sentence(self, prod):
         return self.gen(("nt", prod))
+
+    def punct_deletions(self, text, limit=12):
+        """the text with ONE of its punctuation characters deleted, for up to `limit` of them (a required delimiter, quote,
+        occurrence indicator, ... missing)"""
+        idx = [i for i, c in enumerate(text) if not c.isalnum() and not c.isspace()]
+        if len(idx) > limit:
+            idx = self.r.sample(idx, limit)
+        return [text[:i] + text[i + 1:] for i in idx]
 
     def mutants(self, text, k=2):
         """single-character deletions / duplications / swaps of a sentence (one character away from it)"""
